@@ -601,6 +601,13 @@ func (w *World) RandomReadOn(e *Env) {
 		qh = 0
 	}
 	if w.P.QueryHeavy && e == w.Env && w.R.Chance(85) {
+		if w.R.Chance(18) {
+			// a module query without a height: the committed balance, also in the middle of a block
+			a := w.All[w.R.Intn(len(w.All))]
+			data := posTypes.ModuleCdc.MustMarshalJSON(posTypes.QueryAccountBalanceParams{Address: a.Addr})
+			e.Query(&QuerySpec{Path: "/custom/pos/account_balance", Data: hx(data), Height: []int64{0, 0, e.H}[w.R.Intn(3)]})
+			return
+		}
 		w.storeKeyQuery(qh)
 		return
 	}
